@@ -426,6 +426,25 @@ def m_abs_diff(c):
     return Int(z3.simplify(z3.If(z3.ULT(a.v, b.v), b.v - a.v, a.v - b.v)), False)
 
 
+@pattern(r'^core::num::(div_ceil)$')
+def m_div_ceil(c):
+    a, b = c.args
+    from .exec import Panic
+    if a.signed:
+        raise Unsupported('signed div_ceil')
+    if z3.is_bv_value(z3.simplify(b.v)) and z3.simplify(b.v).as_long() == 0:
+        raise Panic('attempt to divide by zero')
+    if c.st.branch(b.v == 0, 'div_ceil by zero'):
+        raise Panic('attempt to divide by zero')
+    q = z3.UDiv(a.v, b.v)
+    return Int(z3.simplify(z3.If(z3.URem(a.v, b.v) != 0, q + 1, q)), False)
+
+
+@pattern(r'^core::num::(cast_unsigned|cast_signed)$')
+def m_cast_sign(c):
+    return Int(c.args[0].v, c.canon.endswith('cast_signed'))
+
+
 @pattern(r'^core::num::(is_power_of_two)$')
 def m_pow2(c):
     a = c.args[0]
